@@ -12,7 +12,7 @@ use serde::{Deserialize, Serialize};
 #[derive(Clone, Debug, Serialize, Deserialize, PartialEq, Eq, Hash)]
 pub enum FGene {
     /// dts advances by `ddts` (>= 0); when `back` is Some(b) the submitted dts is (current - b) instead
-    Write { ddts: u32, cts: i32, size: u32, sync: bool, back: Option<u32> },
+    Write { ddts: u32, cts: i64, size: u32, sync: bool, back: Option<u32> },
     Flush,
     Ready,
     DurMs,
@@ -166,7 +166,7 @@ pub fn lower(c: &FragCase) -> LoweredFrag {
                     Some(b) if c.const_interval.is_none() => cur.saturating_sub(*b as u64),
                     _ => cur,
                 };
-                let pts = if *cts >= 0 { dts + *cts as u64 } else { dts.saturating_sub((-(*cts as i64)) as u64) };
+                let pts = if *cts >= 0 { dts + *cts as u64 } else { dts.saturating_sub((-*cts) as u64) };
                 let tag = (3u64 << 60) | (n << 20) | *size as u64;
                 let data = if c.realistic {
                     // a third of the realistic cases repeat exactly the configured parameter sets in-band on sync samples
@@ -375,8 +375,11 @@ pub fn check_structure(o: &mut Outcome, t: &FragTrace) {
 pub fn fgene_strategy() -> impl Strategy<Value = FGene> {
     prop_oneof![
         10 => (
-            prop_oneof![4 => Just(3000u32), 2 => Just(0u32), 3 => 0u32..20000, 1 => 0u32..400_000_000, 1 => (1u32 << 31) - 2..(1u32 << 31)],
-            prop_oneof![3 => Just(0i32), 2 => 0i32..20000, 2 => -20000i32..0, 1 => any::<i32>().prop_map(|v| v / 2)],
+            // decode steps: constant, zero, irregular, huge; and the 23.976 / 59.94 fps cadences whose steps differ by one tick
+            prop_oneof![4 => Just(3000u32), 2 => Just(0u32), 3 => 0u32..20000, 1 => 0u32..400_000_000, 1 => (1u32 << 31) - 2..(1u32 << 31), 2 => Just(3754u32), 1 => Just(3753u32), 1 => Just(1501u32), 1 => Just(1502u32)],
+            // composition offsets: none, ordinary reordering, up to +-2^30, and (rarely) beyond 32 bits: presentation and decode
+            // clocks from different sources (acceptance depends on the decode time only)
+            prop_oneof![30 => Just(0i64), 20 => 0i64..20000, 20 => -20000i64..0, 10 => any::<i32>().prop_map(|v| (v / 2) as i64), 1 => (1i64 << 31)..(1i64 << 34), 1 => -(1i64 << 34)..-(1i64 << 31)],
             prop_oneof![2 => Just(0u32), 12 => 1u32..200, 4 => 200u32..2001, 1 => 60_000u32..70_000],
             any::<bool>(),
             proptest::option::weighted(0.15, prop_oneof![2 => Just(0u32), 3 => 1u32..5000, 1 => any::<u32>()]),
